@@ -115,3 +115,37 @@ func VF_C05_AfterRemoveAll(kc, _ int) {
 	vf.BudgetReset()
 	vf.Reach("end")
 }
+
+// VF_C05_Capacities: a queue made with a requested capacity (0 = the default) accepts exactly that many values
+// without a consumer, reports them, and can be closed and drained.  sel: 0..4 the capacity, 5 -> 16, 6 -> 17.
+func VF_C05_Capacities(sel, _ int) {
+	c := sel
+	if sel == 5 {
+		c = 16
+	}
+	if sel == 6 {
+		c = 17
+	}
+	cls := col.Queue[int](nil)
+	want := c
+	if c == 0 {
+		want = int(cls.DefaultCapacity())
+	}
+	vf.Budget(40000000)
+	q := cls.MakeWithCapacity(uint(c))
+	vf.Assert("capacity-as-requested-or-default", int(q.GetCapacity()) == want)
+	x := vf.Int("x")
+	for i := 0; i < want; i++ {
+		q.AddValue(x + i) // blocks for ever (reported as a deadlock) if the queue holds fewer than its capacity
+	}
+	vf.Assert("holds-capacity-values", q.GetSize() == want)
+	q.CloseQueue()
+	for i := 0; i < want; i++ {
+		v, ok := q.RemoveHead()
+		vf.Assert("values-in-order", vf.And(ok, v == x+i))
+	}
+	_, ok := q.RemoveHead()
+	vf.Assert("closed-and-drained", !ok)
+	vf.BudgetReset()
+	vf.Reach("end")
+}
